@@ -29,7 +29,8 @@ RULE = ("random system bounds/exclusion zone x 1-6 proposals (priorities with ti
         "distinct = canonical case JSON; non-trivial = >=2 proposals and >=2 distinct histories executed")
 REQUIRED_BUCKETS = ["conflicting-set", "conflict-free-set", "zone-straddling-bounds", "all-None-proposals",
                     "ties", "expiry-drops-some", "stale-replaced", "zone-present", "target-on-zone-edge",
-                    "two-groups-share-actors", "max-age:60s", "max-age:other", "tiny-nonzero-preference"]
+                    "two-groups-share-actors", "max-age:60s", "max-age:other", "tiny-nonzero-preference",
+                    "actor-tier(expiry through the power manager)"]
 REQUIRED_COUNTERS = ["targets_observed", "histories_run", "expiry_checks", "bounds_shrink_and_recover_checks"]
 ASSUMPTIONS = ["history-freeness is checked for the final live set of each history (latest proposal per actor)"]
 
@@ -41,6 +42,18 @@ def budget(tier: str) -> dict[str, Any]:
 
 
 def gen(rng: Any, tier: str, i: int) -> Any:
+    if rng.random() < 0.03:
+        # "proposals older than the maximum age stop counting" as the power manager wires it: the real
+        # PowerManagingActor with regular and operating-point actors, long silences, clean-up timer (C11's driver/oracle)
+        from . import c11
+
+        case = c11.gen(rng, tier, i)
+        for _ in range(20):
+            if any(e["k"] == "advance" and e["dt"] > 60 for e in case["events"]):
+                break
+            case = c11.gen(rng, tier, i)
+        case["kind"] = "actor-expiry"
+        return case
     sys, excl = pm.gen_sys(rng)
     n = rng.choice([1, 2, 2, 3, 3, 4, 4, 5, 6])
     props = pm.gen_props(rng, n, distinct_prio=rng.random() < 0.4, compat_bias=rng.choice([0.2, 0.5, 0.9]))
@@ -113,6 +126,12 @@ def _run_history(order: list[int], props: list[dict[str, Any]], sb: Any, hr: ran
 
 
 def check(case: dict[str, Any], rec: Any) -> None:
+    if case.get("kind") == "actor-expiry":
+        from . import c11
+
+        rec.bucket("actor-tier(expiry through the power manager)")
+        c11.check(case, rec)
+        return
     sys, excl, props = case["sys"], case["excl"], case["props"]
     sl, su = sys
     el, eu = excl
